@@ -17,6 +17,7 @@ pub mod c18;
 pub mod c19;
 pub mod c20;
 pub mod c21;
+pub mod c22;
 pub mod c23;
 pub mod c24;
 
@@ -36,6 +37,7 @@ pub fn all() -> Vec<PropDef> {
         c19::def(),
         c20::def(),
         c21::def(),
+        c22::def(),
         c23::def(),
         c24::def(),
     ]
